@@ -14,16 +14,25 @@
 //	                 V's address through identify)  byzantine clients (client_test.go)
 //
 // The clients speak /libp2p/autonat/2/dial-request raw. One run = a stratum (general mix | concurrency |
-// one tight per-minute limit: global, per-peer, dial-data), a drawn configuration of the four limits, a
-// population of 2-5 clients and 1-14 requests launched at drawn virtual instants (gaps 0 .. 75 s, so that
-// bursts, concurrent requests of one peer and the edges of the one-minute window occur), each with a drawn
+// one tight per-minute limit: global, per-peer, dial-data | slot accounting), a drawn configuration of the four
+// limits, a population of 2-5 clients and 1-14 requests launched at drawn virtual instants (gaps 0 .. 75 s, so
+// that bursts, concurrent requests of one peer and the edges of the one-minute window occur), each with a drawn
 // address list (own / own IP dead port / own second IP / victim / other client / S / dead public IPv4+IPv6 /
 // private / no transport / not a multiaddr / D's IP / own or foreign /p2p suffix; length 0, 1-4, 50-52, 120),
 // a drawn request shape (normal, wrong first message, half a request then pause then rest or reset,
-// oversized) and a drawn dial-data script (correct exact/overshooting, short by 1..n-150 bytes, tiny
-// messages, varied message sizes incl. 8186 B, frames that are not protobuf, early close/reset, a message
-// of more than 8192 B, pauses before / in the middle) and a drawn dial-back handler (answer, delayed answer,
-// reset, close without answer).
+// oversized), a drawn dial-data script (correct exact/overshooting, short by 1..n-150 bytes, tiny
+// messages, varied message sizes incl. 8186 B, frames that are not protobuf, HOLLOW frames whose protobuf
+// length fields announce 1000..16000 data bytes while the frame carries 0..1000 of them, early close/reset, a
+// message of more than 8192 B, pauses before / in the middle), a drawn dial-back handler (answer, delayed
+// answer, reset, close without answer) and a drawn stage at which the client resets the request stream (never |
+// when the dial-back nonce arrives, before the dial-back is answered — the server's response write then fails |
+// right after the dial-back was answered | after the request | after the write that completed the dial data).
+// The slot-accounting stratum is a scenario with drawn details: one peer keeps limit-1 requests in service
+// (held 6 s in the dial-data phase), lets 1-2 further requests fail at a drawn stage (the four reset stages,
+// dial-back reset / unanswered, abort in the dial-data phase), then opens limit+1 new requests.
+//
+// Dial-data bytes are counted ON THE WIRE of the raw client: a well-formed DialDataResponse frame is credited with
+// its data length, every other frame (not protobuf, hollow) with the number of bytes really written.
 //
 // math/rand's global source (dial-data size, wait before the dial) is pinned per run from the tape
 // (randseednop=0 + rand.Seed); the oracles do not depend on it: the requested size is read from the
@@ -102,7 +111,15 @@
 //	NumBytes = 100 + rand (below 30000)                         dial-data-request-out-of-range                 t 5..11
 //	dial-back carries the previous request's nonce              dial-back-stream-to-other-peer/client          t 6..15 (6 of 8 workers)
 //
-// Unchanged tree: 0 violations over 15959 runs (seed 1) + 7330 runs (seed 77) + the quick tier; ./check selftest identical.
+// Second-round seeded changes (whole trees via VERIF_REPO, ./check C16 quick, 45 s, 8 workers; all 8 workers report):
+//
+//	readDialData trusts the ANNOUNCED data length of a frame    amplification/dial-before-dial-data-complete   (hollow frames: asked 97515 B,
+//	                                                            84 B written, D dials the foreign address)     first report after <= 25 runs/worker
+//	slot released before the response write + again by the      concurrent-requests-exceeded                   (slot-accounting stratum: B held,
+//	guarded defer when that write fails                         A reset at the nonce, then C, D, E: B, C, D served with limit 2)
+//
+// Unchanged tree: 0 violations over 15959 runs (seed 1) + 7330 runs (seed 77) + the quick tier (first round); after the
+// second-round strengthening a 240 s x 8 workers soak and the quick tier are clean; ./check selftest identical.
 //
 // Observations on the unchanged tree (none is a violation of the statement for the shipped configuration; recorded
 // for DESIGN.md by the lead):
